@@ -252,9 +252,10 @@ P["C09"] = {
         "interference freedom is decided on footprints: W1 disjoint from R2+W2 and W2 disjoint from R1 for all fact values => every interleaving of the two executions is data-race free and equivalent to a sequential one (DRF argument); scheduling itself is not executed",
         "environment stubs (uuid, loggers, sync.Mutex, reflect's internal caches) are thread-safe by their own contract; a race inside a stubbed dependency is not seen",
         "footprint assertions (labels C09:model:*) have no native counterpart: a counterexample on them is reported from the model (the isomorphism / sharing / behavioural assertions replay natively)"],
-    "bounds": "template set 'clone' (8 templates incl. heavy sharing: argument expressions shared with conditions); 3 instances; K <= 2 firings per run",
+    "bounds": "template set 'clone' (9 templates incl. heavy sharing: argument expressions shared with conditions), built and - second run - loaded back from the GRB image; 3 instances; K <= 2 firings per run; thorough: 8 generated rule sets",
     "outside": "rule sets outside the template family; more than 3 instances; races inside stubbed dependencies; GOMAXPROCS is immaterial to the argument",
-    "runs": [c09("clone", 2, QT), tierB("memo", 3, 0, T)]}
+    "runs": [c09("clone", 2, QT), dict(c09("clone", 2, QT), name="c09-clone-k2-loaded-from-GRB", entry="VerifC09SetLoaded", extra_label_prefixes=["C12:load-succeeds"]),
+             c09("genq", 2, T), tierB("memo", 3, 0, T)]}
 
 
 
